@@ -88,11 +88,38 @@ pub mod filt {
         o
     }
 
+    /// zlib-encode with a per-thread, re-used miniz compressor (a fresh compressor per call
+    /// costs a 300 KB allocation, which dominated the run time of the small cases).
+    pub fn flate_fast(data: &[u8], level: u32) -> Vec<u8> {
+        use std::cell::RefCell;
+        thread_local! {
+            static COMP: RefCell<Vec<(u32, flate2::Compress)>> = const { RefCell::new(Vec::new()) };
+        }
+        COMP.with(|cell| {
+            let mut v = cell.borrow_mut();
+            if !v.iter().any(|(l, _)| *l == level) {
+                v.push((level, flate2::Compress::new(flate2::Compression::new(level), true)));
+            }
+            let comp = &mut v.iter_mut().find(|(l, _)| *l == level).unwrap().1;
+            comp.reset();
+            let mut out: Vec<u8> = Vec::with_capacity(data.len() + data.len() / 512 + 128);
+            loop {
+                let consumed = comp.total_in() as usize;
+                let st = comp.compress_vec(&data[consumed..], &mut out, flate2::FlushCompress::Finish).expect("deflate");
+                if st == flate2::Status::StreamEnd {
+                    break;
+                }
+                out.reserve(out.capacity().max(256));
+            }
+            out
+        })
+    }
+
     pub fn ref_encode(f: F, variant: usize, data: &[u8]) -> Vec<u8> {
         match (f, variant) {
-            (F::Flate, 0) => rf::flate_encode(data),
-            (F::Flate, 1) => rf::flate_encode_level(data, 0),
-            (F::Flate, _) => rf::flate_encode_level(data, 9),
+            (F::Flate, 0) => flate_fast(data, 6),
+            (F::Flate, 1) => flate_fast(data, 0),
+            (F::Flate, _) => flate_fast(data, 9),
             (F::Lzw1, 0) => rf::lzw_encode(data, true),
             (F::Lzw1, _) => weezl_lzw(data, true),
             (F::Lzw0, 0) => rf::lzw_encode(data, false),
@@ -255,4 +282,592 @@ pub mod objcmp {
     pub fn show(o: &Obj) -> String {
         vx::show_bytes(&canon(o), 200)
     }
+}
+
+/// Keep glibc from returning freed arena memory to the kernel after every large free
+/// (`madvise` on the process-wide mmap lock serialises all explorer threads when each case
+/// allocates a few 100 KB codec states / scan buffers). Performance only; no semantic effect.
+#[cfg(any(feature = "c04", feature = "c18", feature = "c19"))]
+pub fn tune_malloc() {
+    #[cfg(all(target_os = "linux", target_env = "gnu"))]
+    unsafe {
+        libc::mallopt(libc::M_TRIM_THRESHOLD, 1 << 30);
+        libc::mallopt(libc::M_MMAP_THRESHOLD, 16 << 20);
+    }
+}
+
+/// Shared by C05 and C06: the library's and the reference reader's view of a file as one
+/// object model (`refpdf::syntax::Obj`), and a structural comparison of two object graphs
+/// that follows references (object numbers differ between a plaintext and an encrypted build).
+#[cfg(any(feature = "c05", feature = "c06"))]
+#[allow(dead_code)]
+pub mod enc {
+    use oxidize_pdf::parser::objects::{PdfDictionary, PdfObject};
+    use oxidize_pdf::parser::{PdfDocument, PdfReader};
+    use refpdf::syntax::{Dict, Obj, StreamObj};
+    use std::collections::BTreeSet;
+    use std::io::Cursor;
+
+    fn dict_to_ref(d: &PdfDictionary) -> Dict {
+        let mut v: Vec<(Vec<u8>, Obj)> = d.0.iter().map(|(k, v)| (k.0.as_bytes().to_vec(), to_ref(v))).collect();
+        v.sort_by(|a, b| a.0.cmp(&b.0));
+        Dict(v)
+    }
+    pub fn to_ref(o: &PdfObject) -> Obj {
+        match o {
+            PdfObject::Null => Obj::Null,
+            PdfObject::Boolean(b) => Obj::Bool(*b),
+            PdfObject::Integer(i) => Obj::Int(*i),
+            PdfObject::Real(r) => Obj::Real(*r),
+            PdfObject::String(s) => Obj::Str(s.0.clone()),
+            PdfObject::Name(n) => Obj::Name(n.0.as_bytes().to_vec()),
+            PdfObject::Array(a) => Obj::Array(a.0.iter().map(to_ref).collect()),
+            PdfObject::Dictionary(d) => Obj::Dict(dict_to_ref(d)),
+            PdfObject::Stream(s) => Obj::Stream(Box::new(StreamObj { dict: dict_to_ref(&s.dict), data: s.data.clone() })),
+            PdfObject::Reference(n, g) => Obj::Ref(*n, *g),
+        }
+    }
+
+    /// Anything that can hand out indirect objects.
+    pub trait Src {
+        fn get(&self, n: u32, g: u16) -> Result<Obj, String>;
+    }
+    pub struct RefSrc(pub refpdf::file::PdfFile);
+    impl Src for RefSrc {
+        fn get(&self, n: u32, g: u16) -> Result<Obj, String> {
+            Ok(self.0.get_gen(n, g))
+        }
+    }
+
+    /// A document opened (and unlocked) through the library.
+    pub struct LibOpen {
+        pub encrypted: bool,
+        /// already unlocked right after opening (the reader tries the empty user password)
+        pub unlocked_on_open: bool,
+        pub perms: Option<u32>,
+        pub root: Option<Obj>,
+        pub info: Option<Obj>,
+        pub doc: PdfDocument<Cursor<Vec<u8>>>,
+    }
+    impl Src for LibOpen {
+        fn get(&self, n: u32, g: u16) -> Result<Obj, String> {
+            match vx::guard(|| self.doc.get_object(n, g).map(|o| to_ref(&o)).map_err(|e| e.to_string())) {
+                Ok(r) => r,
+                Err(p) => Err(format!("PANIC {p}")),
+            }
+        }
+    }
+
+    /// Open with the library; `pw = None` means "do not call unlock".
+    /// Err("open: …") when the file cannot be opened, Err("unlock: …") when the password is refused.
+    pub fn lib_open(bytes: &[u8], pw: Option<&str>) -> Result<LibOpen, String> {
+        let r = vx::guard(|| {
+            let mut reader = PdfReader::new(Cursor::new(bytes.to_vec())).map_err(|e| format!("open: {e}"))?;
+            let encrypted = reader.is_encrypted();
+            let unlocked_on_open = encrypted && reader.is_unlocked();
+            if let Some(pw) = pw {
+                reader.unlock(pw).map_err(|e| format!("unlock: {e}"))?;
+            }
+            let perms = reader.encryption_handler().map(|h| h.permissions().bits());
+            let root = reader.trailer().dict().get("Root").map(to_ref);
+            let info = reader.trailer().dict().get("Info").map(to_ref);
+            Ok::<_, String>(LibOpen { encrypted, unlocked_on_open, perms, root, info, doc: reader.into_document() })
+        });
+        match r {
+            Ok(x) => x,
+            Err(p) => Err(format!("open: PANIC {p}")),
+        }
+    }
+
+    /// Does the library accept this password (fresh reader, both roles tried)?
+    pub fn lib_accepts(bytes: &[u8], pw: &str) -> Result<bool, String> {
+        match vx::guard(|| {
+            let mut reader = PdfReader::new(Cursor::new(bytes.to_vec())).map_err(|e| format!("open: {e}"))?;
+            reader.unlock_with_password(pw).map_err(|e| format!("unlock error: {e}"))
+        }) {
+            Ok(r) => r,
+            Err(p) => Err(format!("PANIC {p}")),
+        }
+    }
+
+    /// Page texts and the metadata record through the library's high-level API.
+    pub fn lib_text_and_metadata(d: &LibOpen) -> Result<(Vec<String>, String), String> {
+        match vx::guard(|| {
+            let t = d.doc.extract_text().map_err(|e| format!("extract_text: {e}"))?;
+            let m = d.doc.metadata().map_err(|e| format!("metadata: {e}"))?;
+            let meta = format!("title={:?} author={:?} subject={:?} keywords={:?} creator={:?} producer={:?} pages={:?}", m.title, m.author, m.subject, m.keywords, m.creator, m.producer, m.page_count);
+            Ok::<_, String>((t.into_iter().map(|x| x.text).collect(), meta))
+        }) {
+            Ok(r) => r,
+            Err(p) => Err(format!("PANIC {p}")),
+        }
+    }
+
+    /// Decode a stream with the reference filters; /Crypt entries of /Filter are dropped first
+    /// (decryption, if any, has happened before).
+    pub fn decoded(s: &StreamObj) -> Result<Vec<u8>, String> {
+        let mut d = s.dict.clone();
+        let filt = d.get("Filter").cloned();
+        let parms = d.get("DecodeParms").cloned();
+        match filt {
+            Some(Obj::Name(n)) if n == b"Crypt" => {
+                d.remove("Filter");
+                d.remove("DecodeParms");
+            }
+            Some(Obj::Array(a)) if a.iter().any(|x| x.as_name() == Some(b"Crypt")) => {
+                let keep: Vec<usize> = (0..a.len()).filter(|&i| a[i].as_name() != Some(b"Crypt")).collect();
+                d.set("Filter", Obj::Array(keep.iter().map(|&i| a[i].clone()).collect()));
+                if let Some(Obj::Array(p)) = parms {
+                    d.set("DecodeParms", Obj::Array(keep.iter().map(|&i| p.get(i).cloned().unwrap_or(Obj::Null)).collect()));
+                }
+            }
+            _ => {}
+        }
+        refpdf::filters::decode_stream(&d, &s.data).map_err(|e| e.to_string())
+    }
+
+    #[derive(Clone, Debug)]
+    pub struct Diff {
+        pub path: String,
+        /// "string" | "stream-dict-string" | "stream-data" | "value" | "type" | "keys" | "array-length" | "unresolvable"
+        pub kind: &'static str,
+        pub a: String,
+        pub b: String,
+        /// raw bytes of both sides for string differences (empty otherwise)
+        pub a_raw: Vec<u8>,
+        pub b_raw: Vec<u8>,
+    }
+
+    fn show(o: &Obj) -> String {
+        vx::show_bytes(&refpdf::syntax::to_bytes(o), 80)
+    }
+
+    struct Walk<'x> {
+        a: &'x dyn Src,
+        b: &'x dyn Src,
+        ignore: &'x dyn Fn(&str, &[u8]) -> bool,
+        seen: BTreeSet<(u32, u32)>,
+        out: Vec<Diff>,
+        max: usize,
+        nodes: usize,
+        strings: usize,
+        streams: usize,
+    }
+
+    impl<'x> Walk<'x> {
+        fn push(&mut self, path: &str, kind: &'static str, a: String, b: String) {
+            if self.out.len() < self.max {
+                self.out.push(Diff { path: path.to_string(), kind, a, b, a_raw: Vec::new(), b_raw: Vec::new() });
+            }
+        }
+        fn dicts(&mut self, da: &Dict, db: &Dict, path: &str, in_stream: bool, depth: usize) {
+            let skip_stream_keys = |k: &[u8]| in_stream && matches!(k, b"Length" | b"Filter" | b"DecodeParms" | b"DL");
+            let ka: BTreeSet<&Vec<u8>> = da.keys().filter(|k| !(self.ignore)(path, k) && !skip_stream_keys(k)).collect();
+            let kb: BTreeSet<&Vec<u8>> = db.keys().filter(|k| !(self.ignore)(path, k) && !skip_stream_keys(k)).collect();
+            if ka != kb {
+                let f = |s: &BTreeSet<&Vec<u8>>| s.iter().map(|k| String::from_utf8_lossy(k).to_string()).collect::<Vec<_>>().join(",");
+                self.push(path, "keys", f(&ka), f(&kb));
+            }
+            for k in ka.intersection(&kb) {
+                let p = format!("{path}/{}", String::from_utf8_lossy(k));
+                let (va, vb) = (da.get_b(k).unwrap().clone(), db.get_b(k).unwrap().clone());
+                self.pair(&va, &vb, &p, in_stream, depth + 1);
+            }
+        }
+        fn pair(&mut self, a: &Obj, b: &Obj, path: &str, in_stream: bool, depth: usize) {
+            self.nodes += 1;
+            if depth > 60 || self.nodes > 200_000 {
+                return;
+            }
+            match (a, b) {
+                (Obj::Ref(na, ga), Obj::Ref(nb, gb)) => {
+                    if !self.seen.insert((*na, *nb)) {
+                        return;
+                    }
+                    match (self.a.get(*na, *ga), self.b.get(*nb, *gb)) {
+                        (Ok(oa), Ok(ob)) => self.pair(&oa, &ob, path, false, depth + 1),
+                        (ra, rb) => self.push(path, "unresolvable", format!("{:?}", ra.map(|o| show(&o))), format!("{:?}", rb.map(|o| show(&o)))),
+                    }
+                }
+                (Obj::Ref(na, ga), other) => match self.a.get(*na, *ga) {
+                    Ok(oa) => self.pair(&oa, other, path, false, depth + 1),
+                    Err(e) => self.push(path, "unresolvable", e, show(other)),
+                },
+                (other, Obj::Ref(nb, gb)) => match self.b.get(*nb, *gb) {
+                    Ok(ob) => self.pair(other, &ob, path, false, depth + 1),
+                    Err(e) => self.push(path, "unresolvable", show(other), e),
+                },
+                (Obj::Str(x), Obj::Str(y)) => {
+                    self.strings += 1;
+                    if x != y {
+                        self.push(path, if in_stream { "stream-dict-string" } else { "string" }, vx::show_bytes(x, 60), vx::show_bytes(y, 60));
+                        if let Some(d) = self.out.last_mut() {
+                            if d.path == path {
+                                d.a_raw = x.clone();
+                                d.b_raw = y.clone();
+                            }
+                        }
+                    }
+                }
+                (Obj::Array(x), Obj::Array(y)) => {
+                    if x.len() != y.len() {
+                        self.push(path, "array-length", x.len().to_string(), y.len().to_string());
+                    }
+                    for (i, (p, q)) in x.iter().zip(y.iter()).enumerate() {
+                        self.pair(p, q, &format!("{path}[{i}]"), in_stream, depth + 1);
+                    }
+                }
+                (Obj::Dict(x), Obj::Dict(y)) => self.dicts(x, y, path, in_stream, depth),
+                (Obj::Stream(x), Obj::Stream(y)) => {
+                    self.streams += 1;
+                    self.dicts(&x.dict, &y.dict, path, true, depth);
+                    match (decoded(x), decoded(y)) {
+                        (Ok(p), Ok(q)) => {
+                            // XMP packets carry the creation/modification time of the build
+                            let is_xmp = x.dict.get("Type").and_then(|t| t.as_name()) == Some(b"Metadata");
+                            let (p, q) = if is_xmp { (mask_dates(&p), mask_dates(&q)) } else { (p, q) };
+                            if p != q {
+                                self.push(path, "stream-data", format!("{} bytes: {}", p.len(), vx::show_bytes(&p, 40)), format!("{} bytes: {}", q.len(), vx::show_bytes(&q, 40)));
+                            }
+                        }
+                        (p, q) => {
+                            // undecodable on at least one side: that is a difference unless both fail on the same raw bytes
+                            if !(p.is_err() && q.is_err() && x.data == y.data) {
+                                self.push(path, "stream-data", format!("{:?}", p.map(|v| v.len())), format!("{:?}", q.map(|v| v.len())));
+                            }
+                        }
+                    }
+                }
+                (Obj::Int(x), Obj::Real(y)) | (Obj::Real(y), Obj::Int(x)) if *x as f64 == *y => {}
+                (x, y) if std::mem::discriminant(x) != std::mem::discriminant(y) => self.push(path, "type", show(x), show(y)),
+                (x, y) => {
+                    if !x.same(y) {
+                        self.push(path, "value", show(x), show(y));
+                    }
+                }
+            }
+        }
+    }
+
+    /// Replace every `YYYY-MM-DDThh:mm:ss[.fraction]` by zeros (same shape, fraction dropped).
+    pub fn mask_dates(d: &[u8]) -> Vec<u8> {
+        const SHAPE: &[u8] = b"dddd-dd-ddTdd:dd:dd";
+        let mut out = Vec::with_capacity(d.len());
+        let mut i = 0;
+        while i < d.len() {
+            let m = i + SHAPE.len() <= d.len() && SHAPE.iter().zip(&d[i..]).all(|(s, c)| if *s == b'd' { c.is_ascii_digit() } else { s == c });
+            if m {
+                out.extend(SHAPE.iter().map(|s| if *s == b'd' { b'0' } else { *s }));
+                i += SHAPE.len();
+                if d.get(i) == Some(&b'.') {
+                    i += 1;
+                    while d.get(i).map(|c| c.is_ascii_digit()).unwrap_or(false) {
+                        i += 1;
+                    }
+                }
+            } else {
+                out.push(d[i]);
+                i += 1;
+            }
+        }
+        out
+    }
+
+    pub struct GraphStats {
+        pub nodes: usize,
+        pub strings: usize,
+        pub streams: usize,
+    }
+
+    /// Compare the object graphs reachable from the given roots (pairs of equally named entry
+    /// points such as /Root and /Info). `ignore(path, key)` drops dictionary entries.
+    pub fn graph_diff(a: &dyn Src, b: &dyn Src, roots: &[(&str, Option<Obj>, Option<Obj>)], ignore: &dyn Fn(&str, &[u8]) -> bool, max: usize) -> (Vec<Diff>, GraphStats) {
+        let mut w = Walk { a, b, ignore, seen: BTreeSet::new(), out: Vec::new(), max, nodes: 0, strings: 0, streams: 0 };
+        for (name, ra, rb) in roots {
+            match (ra, rb) {
+                (Some(x), Some(y)) => w.pair(x, y, name, false, 0),
+                (None, None) => {}
+                (x, y) => w.push(name, "keys", format!("{:?}", x.as_ref().map(show)), format!("{:?}", y.as_ref().map(show))),
+            }
+        }
+        let st = GraphStats { nodes: w.nodes, strings: w.strings, streams: w.streams };
+        (w.out, st)
+    }
+
+    pub fn show_diffs(d: &[Diff]) -> String {
+        d.iter().take(4).map(|x| format!("[{} at {}: {} | {}]", x.kind, x.path, x.a, x.b)).collect::<Vec<_>>().join(" ")
+    }
+
+    /// Info entries that legitimately differ between two builds of the same program.
+    pub fn ignore_volatile(path: &str, key: &[u8]) -> bool {
+        path == "Info" && matches!(key, b"ModDate" | b"CreationDate" | b"oxidize-pdf-features" | b"oxidize-pdf-build")
+    }
+}
+
+/// Shared by C05 and C06 (reverse direction): the document programs written through the
+/// library, the plaintext baseline, and the reference reader's side of the oracle.
+#[cfg(any(feature = "c05", feature = "c06"))]
+#[allow(dead_code)]
+pub mod encdoc {
+    use super::enc::{self};
+    use oxidize_pdf::document::{DocumentEncryption, EncryptionStrength};
+    use oxidize_pdf::encryption::{PermissionFlags, Permissions};
+    use oxidize_pdf::forms::{TextField, Widget};
+    use oxidize_pdf::geometry::{Point, Rectangle};
+    use oxidize_pdf::text::Font;
+    use oxidize_pdf::writer::WriterConfig;
+    use oxidize_pdf::{Document, Page};
+    use refpdf::crypto as rc;
+
+    pub const STRENGTHS: [(EncryptionStrength, &str); 4] = [(EncryptionStrength::Rc4_40bit, "RC4-40"), (EncryptionStrength::Rc4_128bit, "RC4-128"), (EncryptionStrength::Aes128, "AES-128"), (EncryptionStrength::Aes256, "AES-256")];
+
+    /// (user, owner)
+    pub fn password_pair(k: usize) -> (String, String) {
+        match k {
+            0 => ("user-pw".into(), "owner-pw".into()),
+            1 => ("".into(), "owner-pw".into()),
+            2 => ("contraseña".into(), "dueño-café".into()),
+            3 => ("u-0123456789abcdefghijklmnopqrstuvwxyz-40".chars().take(40).collect(), "o-0123456789abcdefghijklmnopqrstuvwxyz-ABCDEF".into()),
+            4 => (std::iter::repeat("user127-").take(16).collect::<String>()[..127].to_string(), std::iter::repeat("OWNER127/").take(15).collect::<String>()[..127].to_string()),
+            5 => ("same-pw".into(), "same-pw".into()),
+            6 => ("only-user".into(), "".into()),
+            _ => ("".into(), "".into()),
+        }
+    }
+    pub const PASSWORD_NAMES: [&str; 8] = ["ascii", "empty-user", "non-ascii", "longer-than-32", "127-bytes", "user=owner", "empty-owner", "both-empty"];
+
+    pub fn permission_set(k: usize) -> Permissions {
+        match k {
+            0 => Permissions::all(),
+            1 => Permissions::new(),
+            n => {
+                let b = n - 2;
+                Permissions::from_flags(PermissionFlags {
+                    print: b == 0,
+                    modify_contents: b == 1,
+                    copy: b == 2,
+                    modify_annotations: b == 3,
+                    fill_forms: b == 4,
+                    accessibility: b == 5,
+                    assemble: b == 6,
+                    print_high_quality: b == 7,
+                })
+            }
+        }
+    }
+
+    pub const CONTENT_NAMES: [&str; 3] = ["text-only", "metadata+form-field+2-pages", "strings-with-parens-backslash-CR-LF"];
+
+    /// The document program. Deterministic: dates are pinned, nothing else depends on time
+    /// except /ModDate, which the writer always overwrites and the comparison leaves out.
+    pub fn build_document(content: usize) -> Result<Document, String> {
+        let mut doc = Document::new();
+    
+        let mut page = Page::a4();
+        let e = |e: oxidize_pdf::PdfError| e.to_string();
+        match content {
+            0 => {
+                page.text().set_font(Font::Helvetica, 12.0).at(72.0, 720.0).write("Hello C05 plain text").map_err(e)?;
+                doc.add_page(page);
+            }
+            1 => {
+                doc.set_title("Round trip title");
+                doc.set_author("A. Author");
+                doc.set_subject("Subject of C05");
+                doc.set_keywords("alpha, beta, gamma");
+                doc.set_creator("vcheck C05");
+                page.text().set_font(Font::Helvetica, 12.0).at(72.0, 720.0).write("First page with a form field").map_err(e)?;
+                page.text().set_font(Font::Courier, 10.0).at(72.0, 700.0).write("second line 0123456789").map_err(e)?;
+                let field = TextField::new("customer_name").with_default_value("default value").with_value("Jane Q. Public");
+                let widget = Widget::new(Rectangle::new(Point::new(72.0, 600.0), Point::new(300.0, 620.0)));
+                doc.enable_forms().add_text_field(field, widget, None).map_err(e)?;
+                doc.add_page(page);
+                let mut p2 = Page::a4();
+                p2.text().set_font(Font::TimesRoman, 14.0).at(72.0, 720.0).write("Second page").map_err(e)?;
+                doc.add_page(p2);
+            }
+            _ => {
+                doc.set_title("Title (with) unbalanced ) paren \\ backslash");
+                doc.set_author("line one\rline two\nline three\r\nend");
+                doc.set_subject(")(");
+                page.text().set_font(Font::Helvetica, 12.0).at(72.0, 720.0).write("text (with) parens ) and \\ backslash").map_err(e)?;
+                let field = TextField::new("f(1)").with_value("value ) with \\ and \r CR");
+                let widget = Widget::new(Rectangle::new(Point::new(72.0, 600.0), Point::new(300.0, 620.0)));
+                doc.enable_forms().add_text_field(field, widget, None).map_err(e)?;
+                doc.add_page(page);
+            }
+        }
+        Ok(doc)
+    }
+
+    pub fn write_document(content: usize, cfg: &WriterConfig, enc: Option<(&DocumentEncryption, u64)>) -> Result<Vec<u8>, String> {
+        let r = vx::guard(|| {
+            let mut doc = build_document(content)?;
+            doc.set_compress(cfg.compress_streams);
+            if let Some((e, seed)) = enc {
+                doc.set_encryption(e.clone());
+                oxidize_pdf::verif_hooks::seed_rng(Some(seed));
+            }
+            let r = doc.to_bytes_with_config(cfg.clone()).map_err(|e| e.to_string());
+            oxidize_pdf::verif_hooks::seed_rng(None);
+            r
+        });
+        match r {
+            Ok(x) => x,
+            Err(p) => {
+                oxidize_pdf::verif_hooks::seed_rng(None);
+                Err(format!("PANIC {p}"))
+            }
+        }
+    }
+
+    pub fn config(xref_stream: bool, objstm: bool, compress: bool) -> WriterConfig {
+        WriterConfig { use_xref_streams: xref_stream, use_object_streams: objstm, pdf_version: if xref_stream || objstm { "1.5" } else { "1.7" }.to_string(), compress_streams: compress, incremental_update: false }
+    }
+
+    /// A readable plaintext build: its bytes and what the library's high-level API says about it.
+    pub struct Baseline {
+        pub bytes: Vec<u8>,
+        pub text: Vec<String>,
+        pub meta: String,
+    }
+    impl Baseline {
+        pub fn open(&self) -> Result<enc::LibOpen, String> {
+            enc::lib_open(&self.bytes, None).map_err(|e| format!("plaintext build unreadable: {e}"))
+        }
+    }
+
+    type BaseKey = (usize, bool, bool, bool);
+    type BaseVal = Result<std::sync::Arc<Baseline>, String>;
+    fn base_cache() -> &'static std::sync::Mutex<std::collections::HashMap<BaseKey, std::sync::Arc<std::sync::OnceLock<BaseVal>>>> {
+        static C: std::sync::OnceLock<std::sync::Mutex<std::collections::HashMap<BaseKey, std::sync::Arc<std::sync::OnceLock<BaseVal>>>>> = std::sync::OnceLock::new();
+        C.get_or_init(Default::default)
+    }
+
+    /// The plaintext build of a (content, configuration) cell and what the library reads back
+    /// from it; Err = the configuration does not round-trip even without encryption. Computed
+    /// once per cell and shared (unreadable configurations send the reader into slow recovery).
+    pub fn baseline(content: usize, cfg: &WriterConfig) -> BaseVal {
+        let key = (content, cfg.use_xref_streams, cfg.use_object_streams, cfg.compress_streams);
+        let slot = base_cache().lock().unwrap().entry(key).or_default().clone();
+        slot.get_or_init(|| baseline_uncached(content, cfg).map(std::sync::Arc::new)).clone()
+    }
+
+    fn baseline_uncached(content: usize, cfg: &WriterConfig) -> Result<Baseline, String> {
+        let bytes = write_document(content, cfg, None).map_err(|e| format!("plaintext build fails: {e}"))?;
+        let lib = enc::lib_open(&bytes, None).map_err(|e| format!("plaintext build unreadable: {e}"))?;
+        if lib.encrypted {
+            return Err("plaintext build reads as encrypted".into());
+        }
+        let (text, meta) = enc::lib_text_and_metadata(&lib).map_err(|e| format!("plaintext build unreadable: {e}"))?;
+        // the graph must be walkable
+        let (d, st) = enc::graph_diff(&lib, &lib, &[("Root", lib.root.clone(), lib.root.clone()), ("Info", lib.info.clone(), lib.info.clone())], &enc::ignore_volatile, 4);
+        if !d.is_empty() || st.streams == 0 {
+            return Err(format!("plaintext build unreadable: {}", enc::show_diffs(&d)));
+        }
+        // and must say the same as the default configuration does
+        if cfg.use_xref_streams || cfg.use_object_streams || !cfg.compress_streams {
+            let b0 = baseline(content, &config(false, false, true))?;
+            if b0.text != text || b0.meta != meta {
+                return Err("plaintext build reads back differently from the default configuration".into());
+            }
+        }
+        Ok(Baseline { bytes, text, meta })
+    }
+
+    /// Findings of one encrypted file against its plaintext baseline: (key suffix, detail).
+    pub type Findings = Vec<(String, String)>;
+
+    /// The /Encrypt-less xref-stream signature (KF-C05-1): written with `use_xref_streams`, and the
+    /// newest trailer has neither /Encrypt nor /ID although the body is encrypted.
+    pub fn xref_stream_trailer_lacks_encrypt(bytes: &[u8]) -> bool {
+        match refpdf::file::PdfFile::parse(bytes) {
+            Ok(f) => f.sections[0].kind == refpdf::file::XKind::Stream && f.trailer.get("Encrypt").is_none() && f.trailer.get("ID").is_none(),
+            Err(_) => false,
+        }
+    }
+
+    pub struct Case<'a> {
+        pub tag: String,
+        pub user: &'a str,
+        pub owner: &'a str,
+        pub perms: u32,
+        pub base: &'a Baseline,
+        /// the plaintext build opened through the library: the definition of "the unencrypted document"
+        pub base_lib: &'a enc::LibOpen,
+    }
+
+    /// Reference side (C06 reverse): the independent reader decrypts the library's file to the
+    /// same object graph as the library's plaintext build.
+    pub fn check_reference(enc_bytes: &[u8], cs: &Case) -> Findings {
+        let mut out: Findings = Vec::new();
+        let tag = &cs.tag;
+        // the truth is the plaintext build as the library reads it (a literal string with a raw CR,
+        // which the library's plaintext writer emits, would be read as LF by the reference - that is
+        // C09/C10's business, not an encryption matter)
+        let plain = cs.base_lib;
+        let (pr, pi) = (plain.root.clone(), plain.info.clone());
+        for (pw, role) in [(cs.user, rc::Which::User), (cs.owner, rc::Which::Owner)] {
+            let mut f = match refpdf::file::PdfFile::parse(enc_bytes) {
+                Ok(f) => f,
+                Err(e) => {
+                    out.push(("reference-reader-cannot-parse-encrypted-file".into(), format!("{tag}: {e}")));
+                    return out;
+                }
+            };
+            if !f.is_encrypted() {
+                out.push(("reference-reader-sees-no-Encrypt".into(), format!("{tag}: trailer has no /Encrypt")));
+                return out;
+            }
+            let u = match rc::unlock_ex(&mut f, pw.as_bytes()) {
+                Ok(u) => u,
+                Err(e) => {
+                    out.push((format!("reference-reader-refuses-{}-password", if role == rc::Which::User { "user" } else { "owner" }), format!("{tag}: {pw:?}: {e}")));
+                    continue;
+                }
+            };
+            if u.which != role && cs.user != cs.owner {
+                // an owner password that also authenticates as user, or the reverse
+                let both = u.auth.user_key.is_some() && u.auth.owner_key.is_some();
+                if !(both && role == rc::Which::User) {
+                    out.push(("reference-reader-role-differs".into(), format!("{tag}: {pw:?} authenticates as {:?}, expected {role:?}", u.which)));
+                }
+            }
+            if u.info.p as u32 != cs.perms {
+                out.push(("reference-reader-permissions-differ".into(), format!("{tag}: /P {:#010x}, requested {:#010x}", u.info.p as u32, cs.perms)));
+            }
+            let (er, ei) = (f.trailer.get("Root").cloned(), f.trailer.get("Info").cloned());
+            let problems = u.problems.clone();
+            let src = enc::RefSrc(f);
+            let (d, _) = enc::graph_diff(plain, &src, &[("Root", pr.clone(), er), ("Info", pi.clone(), ei)], &enc::ignore_volatile, 8);
+            if !d.is_empty() {
+                // known signature: encrypted streams carry a /Crypt filter entry without /Name, which
+                // selects the Identity crypt filter (ISO 32000-1 7.6.5, Table 14) - a conforming reader
+                // must not decrypt them. Confirmed when ignoring those entries makes every difference vanish.
+                let mut explained = false;
+                if d.iter().all(|x| x.kind == "stream-data") && u.info.v >= 4 {
+                    if let Ok(mut f2) = refpdf::file::PdfFile::parse(enc_bytes) {
+                        if rc::unlock_with(&mut f2, pw.as_bytes(), |i| i.ignore_stream_crypt_filters = true).is_ok() {
+                            let (r2, i2) = (f2.trailer.get("Root").cloned(), f2.trailer.get("Info").cloned());
+                            let src2 = enc::RefSrc(f2);
+                            let (d2, _) = enc::graph_diff(plain, &src2, &[("Root", pr.clone(), r2), ("Info", pi.clone(), i2)], &enc::ignore_volatile, 8);
+                            explained = d2.is_empty();
+                        }
+                    }
+                }
+                if explained {
+                    out.push(("encrypted-streams-carry-nameless-Crypt-filter-meaning-Identity".into(), format!("{tag} ({role:?} password): an independent reader leaves these streams undecrypted: {}", enc::show_diffs(&d))));
+                } else {
+                    let kinds: std::collections::BTreeSet<&str> = d.iter().map(|x| x.kind).collect();
+                    out.push((format!("reference-reader-content-differs/{}", kinds.into_iter().collect::<Vec<_>>().join("+")), format!("{tag} ({role:?} password): {}", enc::show_diffs(&d))));
+                }
+            }
+            let p = problems.lock().unwrap();
+            if !p.is_empty() {
+                out.push(("reference-reader-undecryptable-data".into(), format!("{tag}: {:?}", &p[..p.len().min(3)])));
+            }
+        }
+        out
+    }
+
 }
